@@ -370,6 +370,8 @@ class C04Monitor(BookTracker):
                     res.violation("owner", "order-under-foreign-agent-id-accepted", {"order": taps.snap_order(obj)})
                 else:
                     res.count("class/refused_spoofed_order")
+                    if case.get("hostile_by") == "hft":
+                        res.count("class/refused_spoofed_order_of_a_high_frequency_agent")
             elif what == "foreign_cancel":
                 if any(c is obj for (lg, c) in out.cancels):
                     res.count("foreign_cancel_accepted(not part of the statement)")
